@@ -120,6 +120,16 @@ def make_case(rng):
         uses_a.append("PRINT %s + \"!\"" % use)
         uses_b.append("PRINT (%s) + \"!\"" % e)
     decl = "CONST %s = %s" % (name, e)
+    if where == "inside_sub" and pre_a and rng.random() < 0.5:
+        # the SUB redefines an earlier global constant with another value; K's expression may refer to it,
+        # and then means the local one
+        shadow = pre_a[rng.randrange(len(pre_a))].split(" = ")[0].split(" ", 1)[1]
+        sk = "str" if shadow.endswith("$") or any(c[0] == shadow and c[1] == "str" for c in g.consts) else "num"
+        new_val = g.str_lit() if sk == "str" else g.num_lit()
+        local = "  CONST %s = %s" % (shadow, new_val)
+        a = pre_a + ["Show", "SUB Show", local, "  " + decl] + ["  " + u for u in uses_a] + ["END SUB"]
+        b = pre_b + ["Show", "SUB Show", local] + ["  " + u for u in uses_b] + ["END SUB"]
+        return {"A": "\n".join(a) + "\n", "B": "\n".join(b) + "\n", "expr": e, "name": name, "where": "inside_sub_shadowing", "suffix": suffix, "kind": kind}
     if where == "global":
         a = pre_a + [decl] + uses_a
         b = pre_b + uses_b
